@@ -207,3 +207,48 @@ func HarnessC13SharedWrapper() {
 	}
 	vrt.Observe("poisoned", poisoned)
 }
+
+type c13Error string
+
+func (e c13Error) Error() string { return string(e) }
+
+// HarnessC13FilterAndTexts: error texts that are not one tidy line (a multierror, blanks at the ends), and filters
+// whose answer may differ when they are asked again (sampling, rate limiting, "poison once"): the decision for a
+// message is the answer the filter gave for it; an accepted failure is in the poison topic, with the error's text
+// as the reason, or still failing.
+func HarnessC13FilterAndTexts() {
+	var hErr error = errScripted
+	switch vrt.Int("errtext", 0, 2) {
+	case 1:
+		hErr = c13Error("2 errors occurred:\n\t* first\n\t* second\n\n")
+	case 2:
+		hErr = c13Error(" padded  text ")
+	}
+	filterAccepts := vrt.Bool("filter.accepts")
+	flips := vrt.Bool("filter.answers.differently.when.asked.again")
+	pubFails := vrt.Bool("pub.fails")
+	pub := &recPublisher{fail: func(int) bool { return pubFails }}
+	filterCalls := 0
+	mw, cerr := PoisonQueueWithFilter(pub, "poison", func(err error) bool {
+		filterCalls++
+		if flips && filterCalls > 1 {
+			return !filterAccepts
+		}
+		return filterAccepts
+	})
+	vrt.Assert(cerr == nil, "middleware")
+	msg := message.NewMessage("u", message.Payload("p"))
+	_, err := mw(func(m *message.Message) ([]*message.Message, error) { return nil, hErr })(msg)
+	vrt.Observe("err", err != nil)
+	if !filterAccepts {
+		vrt.Assert(err == hErr && len(pub.calls) == 0 && len(msg.Metadata) == 0, "filtered-out errors pass through unchanged and publish nothing")
+		return
+	}
+	vrt.Assert(len(pub.calls) == 1 && len(pub.calls[0].msgs) == 1 && pub.calls[0].msgs[0] == msg && pub.calls[0].topic == "poison", "an accepted failure is published exactly once to the poison topic")
+	vrt.Assert(msg.Metadata[ReasonForPoisonedKey] == hErr.Error(), "metadata names the reason: the error's text")
+	if pubFails {
+		vrt.Assert(err != nil, "if the poison publish fails the error is still returned")
+	} else {
+		vrt.Assert(err == nil, "only after the poison topic accepted the message is success reported")
+	}
+}
